@@ -1,14 +1,18 @@
 package props
 
 import (
+	"bytes"
 	"fmt"
+	"go/token"
 	"go/types"
 	"sort"
 	"strings"
 	"testing"
 
+	"github.com/goplus/gogen"
 	"pgregory.net/rapid"
 
+	"verif/h/drive"
 	"verif/h/gen"
 	"verif/h/hx"
 	"verif/h/oracle"
@@ -87,6 +91,14 @@ func TestC04(t *testing.T) {
 		return sig, msg
 	}
 	if r.Replay != "" {
+		var cb c04Block
+		if err := r.ReplayInput(&cb); err == nil && len(cb.Specs) > 0 {
+			r.Eval()
+			if sig, msg := c04BlockEval(&cb); sig != "" {
+				r.Report(&cb, sig, "%s", msg)
+			}
+			return
+		}
 		var c progCase
 		if err := r.ReplayInput(&c); err != nil {
 			t.Fatal(err)
@@ -100,6 +112,40 @@ func TestC04(t *testing.T) {
 	if r.Shard == 0 {
 		replayFindings(r, eval)
 	}
+	// const blocks filled in any order through the position API (NewPos / NewAt / NextAt), the way a
+	// front end that resolves constants on demand uses it
+	r.Check(t, "const-block-order", r.N(600, 20000), func(t *rapid.T) {
+		n := rapid.IntRange(2, 6).Draw(t, "nspecs")
+		b := &c04Block{}
+		for i := 0; i < n; i++ {
+			sp := c04Spec{Expr: -1, Names: rapid.IntRange(1, 2).Draw(t, "nnames")}
+			if i == 0 || rapid.IntRange(0, 1).Draw(t, "explicit") == 0 {
+				sp.Expr = rapid.IntRange(0, len(c04BlockExprs)-1).Draw(t, "expr")
+			} else {
+				sp.Names = b.Specs[i-1].Names // an implicit spec repeats the preceding one
+			}
+			b.Specs = append(b.Specs, sp)
+		}
+		b.Order = rapid.Permutation(seqInts(n)).Draw(t, "order")
+		sig, msg := c04BlockEval(b)
+		r.Eval()
+		r.Class("const-block-by-position")
+		inOrder := true
+		for i, k := range b.Order {
+			inOrder = inOrder && i == k
+		}
+		if sig != "" {
+			if f := r.MatchKnown(sig); f != nil {
+				r.Known(f)
+				return
+			}
+			r.Fail(t, b, sig, "%s", msg)
+		}
+		if !inOrder {
+			r.Class("const-block-filled-out-of-order")
+			r.Nontrivial(fmt.Sprint(b))
+		}
+	})
 	r.Check(t, "constant-folding", r.N(12000, 600000), func(t *rapid.T) {
 		typed := rapid.IntRange(0, 2).Draw(t, "typed") == 0
 		xgo := rapid.IntRange(0, 4).Draw(t, "xgo") == 0
@@ -135,4 +181,141 @@ func TestC04(t *testing.T) {
 			return map[string]any{"xgo": xgo, "outcome": cls, "decls": src[strings.Index(src, "func fn()"):]}
 		})
 	})
+}
+
+// ---- const blocks filled by position ------------------------------------------------------------
+
+type c04Spec struct {
+	Expr  int `json:"expr"`  // index into c04BlockExprs, -1: implicit repetition of the preceding spec
+	Names int `json:"names"` // 1 or 2 names (two names: the expression list has two expressions)
+}
+
+type c04Block struct {
+	Specs []c04Spec `json:"specs"`
+	Order []int     `json:"order"` // the order in which the specs are resolved
+}
+
+// c04BlockExprs: pairs of expressions over iota; a spec with one name uses the first
+var c04BlockExprs = []struct {
+	src  [2]string
+	push func(cb *gogen.CodeBuilder, k int)
+}{
+	{[2]string{"iota", "iota + 100"}, func(cb *gogen.CodeBuilder, k int) {
+		if k == 0 {
+			cb.Val(types.Universe.Lookup("iota"))
+		} else {
+			cb.Val(types.Universe.Lookup("iota")).Val(100).BinaryOp(token.ADD)
+		}
+	}},
+	{[2]string{"iota * 10", "-iota"}, func(cb *gogen.CodeBuilder, k int) {
+		if k == 0 {
+			cb.Val(types.Universe.Lookup("iota")).Val(10).BinaryOp(token.MUL)
+		} else {
+			cb.Val(types.Universe.Lookup("iota")).UnaryOp(token.SUB)
+		}
+	}},
+	{[2]string{"1 << iota", "iota * iota"}, func(cb *gogen.CodeBuilder, k int) {
+		if k == 0 {
+			cb.Val(1).Val(types.Universe.Lookup("iota")).BinaryOp(token.SHL)
+		} else {
+			cb.Val(types.Universe.Lookup("iota")).Val(types.Universe.Lookup("iota")).BinaryOp(token.MUL)
+		}
+	}},
+	{[2]string{"7", "iota - 3"}, func(cb *gogen.CodeBuilder, k int) {
+		if k == 0 {
+			cb.Val(7)
+		} else {
+			cb.Val(types.Universe.Lookup("iota")).Val(3).BinaryOp(token.SUB)
+		}
+	}},
+}
+
+func seqInts(n int) []int {
+	out := make([]int, n)
+	for i := range out {
+		out[i] = i
+	}
+	return out
+}
+
+// c04BlockEval fills the block in the given order and compares every constant's value with the one
+// go/types computes for the written block.
+func c04BlockEval(b *c04Block) (sig, msg string) {
+	n := len(b.Specs)
+	if len(b.Order) != n || n == 0 || b.Specs[0].Expr < 0 {
+		return "", ""
+	}
+	var out string
+	var perr any
+	var pkg *gogen.Package
+	var names []string
+	func() {
+		defer func() { perr = recover() }()
+		pkg = gogen.NewPackage("", "main", &gogen.Config{Importer: oracle.Importer()})
+		defs := pkg.NewConstDefs(pkg.Types.Scope())
+		pos := make([]gogen.ValueAt, n)
+		for i := range pos {
+			pos[i] = defs.NewPos()
+		}
+		// the expression a spec is folded from: its own, or the nearest explicit one before it
+		exprOf := make([]int, n)
+		for i, sp := range b.Specs {
+			exprOf[i] = sp.Expr
+			if sp.Expr < 0 {
+				exprOf[i] = exprOf[i-1]
+			}
+		}
+		for _, i := range b.Order {
+			sp := b.Specs[i]
+			e := c04BlockExprs[exprOf[i]%len(c04BlockExprs)]
+			nn := sp.Names
+			fn := func(cb *gogen.CodeBuilder) int {
+				for k := 0; k < nn; k++ {
+					e.push(cb, k)
+				}
+				return nn
+			}
+			var ns []string
+			for k := 0; k < nn; k++ {
+				ns = append(ns, fmt.Sprintf("k%d_%d", i, k))
+			}
+			if sp.Expr >= 0 {
+				defs.NewAt(pos[i], fn, i, token.NoPos, nil, ns...)
+			} else {
+				defs.NextAt(pos[i], fn, i, token.NoPos, ns...)
+			}
+		}
+		for i, sp := range b.Specs {
+			for k := 0; k < sp.Names; k++ {
+				names = append(names, fmt.Sprintf("k%d_%d", i, k))
+			}
+		}
+		var buf bytes.Buffer
+		if err := gogen.WriteTo(&buf, pkg); err != nil {
+			panic(err)
+		}
+		out = buf.String()
+	}()
+	shape := fmt.Sprintf("n=%d", n)
+	if perr != nil {
+		if k := drive.ClassifyPanic(perr); k == "runtime" || k == "other" {
+			return "const-block-fault|" + shape, fmt.Sprintf("run-time fault: %v", perr)
+		}
+		return "const-block-rejected|" + shape + "|" + normMsg(fmt.Sprint(perr)), fmt.Sprintf("a valid const block filled by position is rejected: %v\n%+v", perr, *b)
+	}
+	chk := oracle.CheckSources("main", map[string]string{"out.go": out}, oracle.Importer())
+	if !chk.OK() {
+		return "const-block-output-rejected|" + oracle.MsgClass(chk.ErrText(1)), fmt.Sprintf("the written const block is rejected by go/types: %s\n%s", chk.ErrText(2), out)
+	}
+	for _, name := range names {
+		got, ok := pkg.Types.Scope().Lookup(name).(*types.Const)
+		want, ok2 := chk.Pkg.Scope().Lookup(name).(*types.Const)
+		if !ok || !ok2 {
+			return "const-block-missing|" + shape, fmt.Sprintf("constant %s is missing (builder %v, output %v)\n%s", name, ok, ok2, out)
+		}
+		if !constEqual(want.Val(), got.Val()) {
+			return "const-block-value", fmt.Sprintf("constant %s: the written block gives %s, the builder folded %s (specs resolved in the order %v)\n%s", name, oracle.ConstKey(want.Val()), oracle.ConstKey(got.Val()), b.Order, out)
+		}
+	}
+	return "", ""
 }
